@@ -250,6 +250,100 @@ def run_forked(fn, args, wall_s):
     return True, val
 
 
+
+def _spawn(fn, args):
+    r, w = os.pipe()
+    pid = os.fork()
+    if pid == 0:
+        try:
+            _die_with_parent()
+            os.close(r)
+            try:
+                out = ('ok', fn(*args))
+            except BaseException as e:  # noqa
+                out = ('exc', '%s: %s' % (type(e).__name__, e))
+            with os.fdopen(w, 'wb') as fh:
+                fh.write(pickle.dumps(out))
+        finally:
+            os._exit(0)
+    os.close(w)
+    return pid, r
+
+
+def _cvc5_job(assertions, timeout_s, model_vars):
+    return solve_cvc5(assertions, timeout_s, model_vars)
+
+
+def race(first, others, wall_s, grace_s, conclusive):
+    """Staged portfolio: `first` = (label, fn, args) starts alone; when it has not answered after grace_s seconds the `others`
+    are started next to it.  The first child whose value satisfies `conclusive` wins, the rest is killed.
+    -> (label, value) of the winner or (None, {label: reason}) when nobody is conclusive within wall_s."""
+    t0 = time.time()
+    live = {}          # fd -> (label, pid, chunks)
+    reasons = {}
+
+    def start(job):
+        label, fn, args = job
+        pid, fd = _spawn(fn, args)
+        live[fd] = (label, pid, [])
+
+    def kill_all():
+        for fd, (label, pid, _) in list(live.items()):
+            try:
+                os.kill(pid, signal.SIGKILL)
+            except ProcessLookupError:
+                pass
+            try:
+                os.waitpid(pid, 0)
+            except ChildProcessError:
+                pass
+            os.close(fd)
+        live.clear()
+
+    start(first)
+    pending_others = list(others)
+    try:
+        while live or pending_others:
+            now = time.time()
+            if now - t0 > wall_s:
+                for fd, (label, pid, _) in live.items():
+                    reasons.setdefault(label, 'timeout')
+                break
+            if pending_others and (now - t0 >= grace_s or not live):
+                for j in pending_others:
+                    start(j)
+                pending_others = []
+            wait = min(0.5, max(0.01, (grace_s - (now - t0)) if pending_others else 0.5))
+            rl, _, _ = select.select(list(live), [], [], wait)
+            for fd in rl:
+                label, pid, chunks = live[fd]
+                b = os.read(fd, 1 << 20)
+                if b:
+                    chunks.append(b)
+                    continue
+                # EOF: child finished
+                os.close(fd)
+                del live[fd]
+                try:
+                    os.waitpid(pid, 0)
+                except ChildProcessError:
+                    pass
+                try:
+                    tag, val = pickle.loads(b''.join(chunks))
+                except Exception as e:  # noqa  child died
+                    reasons[label] = 'solver process died (%s)' % e
+                    continue
+                if tag == 'exc':
+                    reasons[label] = str(val)
+                    continue
+                if conclusive(val):
+                    return label, val
+                reasons[label] = str(val[2]) if isinstance(val, tuple) and len(val) > 2 else 'inconclusive'
+        return None, reasons
+    finally:
+        kill_all()
+
+
 def _parse_cvc5_value(tok):
     tok = tok.strip()
     try:
@@ -382,7 +476,8 @@ def check_sat(assertions, timeout_s=20.0, model_vars=None, use_cvc5=True, tactic
                 return Result('unsat', None, time.time() - t0, 'syntactic-linabs', nassert=len(assertions))
         except RecursionError:
             lin = None
-    for tac in tactics:
+    if len(tactics) <= 1 and not use_cvc5:
+        tac = tactics[0] if tactics else None
         ok, val = run_forked(_child_solve2, (lin if tac is None else None, assertions, budget, model_vars, tac,
                                              core if tac is None else None), budget + 9)
         if ok:
@@ -393,15 +488,25 @@ def check_sat(assertions, timeout_s=20.0, model_vars=None, use_cvc5=True, tactic
                 return Result('unsat', None, time.time() - t0, 'z3-linear-abstraction', nassert=len(assertions))
             if res in ('sat', 'unsat'):
                 return Result(res, model, time.time() - t0, 'z3' + ('' if tac is None else ':' + tac), nassert=len(assertions))
-            reason = 'z3%s: %s' % ('' if tac is None else ':' + tac, why)
+            reason = 'z3: %s' % why
         else:
             reason = 'z3: ' + str(val)
-        budget = max(2.0, timeout_s / 2)
+        return Result('unknown', None, time.time() - t0, 'none', reason, nassert=len(assertions))
+    # portfolio: z3 default first; when it has not answered after a short grace period the other tactics and cvc5 run next
+    # to it, each with the whole budget -- the verdict does not depend on which back end happens to be tried first
+    first = ('z3', _child_solve2, (lin, assertions, budget, model_vars, None, core))
+    others = [('z3:' + tac, _child_solve2, (None, assertions, budget, model_vars, tac, None)) for tac in tactics if tac is not None]
     if use_cvc5 and os.path.exists(CVC5):
-        res, model, why = solve_cvc5(assertions, max(2.0, timeout_s / 2), model_vars)
-        if res in ('sat', 'unsat'):
-            return Result(res, model, time.time() - t0, 'cvc5', nassert=len(assertions))
-        reason += '; ' + why
+        others.append(('cvc5', _cvc5_job, (assertions, budget, model_vars)))
+    label, val = race(first, others, budget + 9, min(1.5, budget / 4), lambda v: v[0] in ('sat', 'unsat', 'unsat-core', 'unsat-linabs'))
+    if label is not None:
+        res, model, why = val
+        if res == 'unsat-core':
+            return Result('unsat', None, time.time() - t0, 'z3-identity(no hypotheses)', nassert=len(assertions))
+        if res == 'unsat-linabs':
+            return Result('unsat', None, time.time() - t0, 'z3-linear-abstraction', nassert=len(assertions))
+        return Result(res, model, time.time() - t0, label, nassert=len(assertions))
+    reason = '; '.join('%s: %s' % (k, v) for k, v in sorted(val.items()))
     return Result('unknown', None, time.time() - t0, 'none', reason, nassert=len(assertions))
 
 
